@@ -199,6 +199,35 @@ def run(facts, R):
                         bad.append((t["callee"]["path"], t.get("span")))
         R.check(bool(pl) and not bad, "permit-before-spawn", worker.path, "permit held to the end of the handler run",
                 "the permit is released early / handed away: %s" % bad, worker.span, "permit is a closure local dropped at scope end (all exits, panic included)")
+        # no-panic-outside-catch-unwind: the only code that may panic here is the handler, inside catch_unwind.  A panic in
+        # spawn_off_reader itself unwinds the reader task (the connection dies with every call in flight); a panic in the worker
+        # before or after catch_unwind - e.g. while the panic report is built - leaves the caller without its answer.  Panic
+        # sites = compiler-inserted assertions (overflow, bounds) and calls that panic on bad input (unwrap/expect, indexing /
+        # slicing incl. `&str[a..b]` on a non-boundary, copy_from_slice, split_at, explicit panics)
+        PANICKY = ("unwrap", "expect", "unwrap_err", "expect_err", "index", "index_mut", "panic", "panic_fmt", "begin_panic", "unreachable", "copy_from_slice",
+                   "split_at", "split_at_mut", "swap_remove", "remove", "insert", "slice_index_order_fail", "from_utf8_unchecked", "unwrap_unchecked")
+        guarded_closures = set()
+        for _, t_ in worker.calls():
+            if t_["callee"]["name"] == "catch_unwind":
+                for x_ in walk(ws.op(t_["args"][0])):
+                    if x_[0] == "agg" and str(x_[1]).startswith("closure:"):
+                        guarded_closures.add(x_[1].split(":", 1)[1])
+        scan = [b] + [c_ for c_ in facts.children(b.path) if not any(c_.path == g_ or c_.path.startswith(g_ + "::") for g_ in guarded_closures)]
+        n_scan = 0
+        for sb_ in scan:
+            for i_ in sorted(sb_.live_blocks()):
+                t_ = sb_.term(i_)
+                n_scan += 1
+                site = None
+                if t_["k"] == "assert":
+                    site = "assertion (%s)" % (t_.get("msg") or "overflow/bounds check")
+                elif t_["k"] == "call" and t_["callee"]["name"] in PANICKY and not (t_["callee"]["name"] in ("remove", "insert") and "HashMap" in t_["callee"]["path"]):
+                    site = t_["callee"]["path"]
+                if site is not None:
+                    R.bad("no-panic-outside-catch-unwind", sb_.path, "off-reader plumbing cannot panic",
+                          "%s in %s can panic outside catch_unwind: on the reader task that kills the connection, in the worker it leaves the caller unanswered"
+                          % (site, sb_.path.rsplit("::", 2)[-2] if "{closure" in sb_.path else sb_.path), t_.get("span"))
+        R.floor("no-panic-outside-catch-unwind", n_scan, 40, "blocks of spawn_off_reader and its worker scanned for panic sites")
         # no early return that skips the handler but keeps... (returns only at the end): single return block
         cu = [(i, t) for i, t in worker.calls() if t["callee"]["name"] == "catch_unwind"]
         R.check(len(cu) == 1, "catch-unwind-shape", worker.path, "one catch_unwind", "catch_unwind calls: %d" % len(cu), worker.span)
